@@ -3,6 +3,7 @@
 import ast
 
 from ..model import AnalysisError, src
+from ..callgraph import fmt
 from ..absint import (Interp, Const, Sym, Err, Atom, Top, Func, ListV, Obj, Aff, AffCmp, Raised, Unmodelled, Exc, k)
 from .. import abshelp as H, ctx as ctxmod, purity, sa
 from .c01 import error_singletons
@@ -29,6 +30,7 @@ def run(model, res, tier):
     res.rule('R6', 'case / length / character functions delegate to the right string operation')
     res.rule('R7', 'no cache or shared state')
     res.rule('R8', '& and LEN/CONCATENATE agree on the text of a number (LEN(a&b) = LEN(a)+LEN(b) for numeric operands too)')
+    res.rule('R9', 'a position obtained from str.find()/rfind() is tested for "not found" before it is used as a slice bound or index')
     res.trusted += ['hxsa abstract interpreter with integer linear forms', 'CPython ast']
     em, singles = error_singletons(model)
     E = dict((msg, n) for n, msg in singles.items())
@@ -43,6 +45,7 @@ def run(model, res, tier):
         m, f = model.registered(n)
         keys.append((m.name, m.qualname_of(f)))
     region = c.cg.reachable(keys)
+    _unchecked_positions(model, res, c, region)
     purity.check_region(res, c, 'R7', None, region, 'a text function')
     purity.check_memo(res, c, 'R7', region, 'a text function')
 
@@ -445,3 +448,138 @@ def c07_run(model, g, acts, tag):
     from .. import roles
     lex = roles.operator_lexemes(g, ['AMP'])
     return c07.run_action(model, g, acts, 'concat', lambda: [Sym(tag, 'F'), Const(lex['AMP']), Sym('str', 'T')], H.date_opaque(model))
+
+
+# ---------------------------------------------------------------------------------------------------
+# R9: the "not found" sentinel of str.find()/rfind() (-1) must not reach a slice bound or index unchecked: text[:-1] is a
+# valid slice, so an unchecked -1 silently rewrites the text where it must stay unchanged (SUBSTITUTE with no k-th occurrence)
+
+def _find_call(node):
+    return isinstance(node, ast.Call) and isinstance(node.func, ast.Attribute) and node.func.attr in ('find', 'rfind')
+
+
+def unchecked_find_uses(func):
+    """[(variable, use node, assignment node)] over the acyclic paths of ``func`` (loops: zero and one iteration): the variable was
+    last bound to a find()/rfind() result, no branch test since then mentions it, and it occurs in a slice bound or index."""
+    from ..paths import function_paths, TooManyPaths
+    try:
+        paths = function_paths(func)
+    except TooManyPaths:
+        return None
+    found = {}
+
+    def names_in(node):
+        return set(x.id for x in ast.walk(node) if isinstance(x, ast.Name))
+
+    def scan(node, state, is_test):
+        # evaluation order inside one statement / test: sub-expressions left to right; a walrus binds, a subscript uses
+        for sub in _ordered(node):
+            if isinstance(sub, ast.Subscript):
+                for nm in names_in(sub.slice):
+                    if state.get(nm, (None,))[0] == 'unchecked':
+                        found.setdefault((nm, id(sub)), (nm, sub, state[nm][1]))
+            if isinstance(sub, ast.NamedExpr):
+                state[sub.target.id] = ('unchecked', sub) if _find_call(sub.value) else (None, None)
+            if isinstance(sub, ast.Compare):
+                for nm in names_in(sub):
+                    if nm in state and state[nm][0] == 'unchecked' and (is_test or True):
+                        state[nm] = ('checked', state[nm][1])
+        if is_test:
+            for nm in names_in(node):       # truthiness tests (if pos + 1:) count as a look at the value as well
+                if nm in state and state[nm][0] == 'unchecked':
+                    state[nm] = ('checked', state[nm][1])
+
+    def _ordered(node):
+        out = []
+
+        def go(n):
+            for c_ in ast.iter_child_nodes(n):
+                if isinstance(c_, (ast.FunctionDef, ast.Lambda, ast.ClassDef)):
+                    continue
+                go(c_)
+            out.append(n)
+        go(node)
+        return out
+
+    for p in paths:
+        state = {}
+        for it in p.items:
+            if it[0] == 'cond':
+                scan(it[1], state, True)
+            elif it[0] == 'loop':
+                node = it[1]
+                if isinstance(node, ast.While):
+                    scan(node.test, state, True)
+                else:
+                    scan(node.iter, state, False)
+                    for nm in names_in(node.target):
+                        state[nm] = (None, None)
+            elif it[0] == 'stmt':
+                st = it[1]
+                if isinstance(st, ast.Assign):
+                    scan(st.value, state, False)
+                    for t in st.targets:
+                        if isinstance(t, ast.Name):
+                            state[t.id] = ('unchecked', st) if _find_call(st.value) else (None, None)
+                        else:
+                            scan(t, state, False)
+                            for nm in (x.id for x in ast.walk(t) if isinstance(x, ast.Name) and isinstance(x.ctx, ast.Store)):
+                                state[nm] = (None, None)
+                elif isinstance(st, ast.AugAssign):
+                    scan(st.value, state, False)
+                    if isinstance(st.target, ast.Name):
+                        state[st.target.id] = (None, None)
+                elif isinstance(st, (ast.Assert,)):
+                    scan(st.test, state, True)
+                else:
+                    scan(st, state, False)
+        t = p.terminal
+        if t[0] in ('return', 'raise') and t[1] is not None:
+            scan(t[1], state, False)
+    return sorted(found.values(), key=lambda x: (getattr(x[1], 'lineno', 0), x[0]))
+
+
+_R9_WITNESS = """
+def bad(text, old, new, k):
+    start = text.find(old)
+    if start < 0:
+        return text
+    for _ in range(k - 1):
+        start = text.find(old, start + 1)
+    return text[:start] + new + text[start + len(old):]
+
+def good(text, old, new):
+    start = text.find(old)
+    if start == -1:
+        return text
+    return text[:start] + new + text[start + len(old):]
+"""
+
+
+def _unchecked_positions(model, res, c, region):
+    # the detector must find the planted example and stay silent on its repaired twin (a rule whose expected count on the
+    # tree is zero would otherwise pass vacuously for ever)
+    wit = ast.parse(_R9_WITNESS)
+    bad = unchecked_find_uses(wit.body[0])
+    good = unchecked_find_uses(wit.body[1])
+    if not bad or good:
+        raise AnalysisError('C15.R9 self-check failed: witness %r, twin %r' % (bad, good))
+    n = 0
+    for key in sorted(region):
+        if key not in c.cg.funcs:
+            continue
+        m, f = c.cg.funcs[key]
+        if not any(_find_call(x) for x in ast.walk(f)):
+            continue
+        n += 1
+        uses = unchecked_find_uses(f)
+        if uses is None:
+            res.ob('R9', fmt(key), 'find() positions checked before use', True, 'undecided: too many paths')
+            continue
+        res.ob('R9', fmt(key), 'find() positions checked before use', not uses, '; '.join('%s in %s' % (v, src(u)) for v, u, a in uses))
+        for v, u, a in uses:
+            res.violation('R9', '%s:%s:unchecked-find:%s' % (key[0], key[1], v), m.where(u),
+                          '%s holds the result of %s, which is -1 when nothing is found, and reaches the slice %s on a path with no test of it '
+                          'in between: -1 is a valid bound (one before the end), so the text is silently rewritten where it must come back '
+                          'unchanged (no such occurrence)' % (v, src(a.value if hasattr(a, 'value') else a)[:60], src(u)[:60]), func=key[1])
+    res.analysed['text functions using find()/rfind()'] = n
